@@ -417,9 +417,9 @@ class Mapping(BasicMapping):
         obj._name                = self.name
         obj._ldim                = self.ldim
         obj._pdim                = self.pdim
-        obj._coordinates         = self.coordinates
+        obj._coordinates         = self._coordinates
         obj._jacobian            = JacobianSymbol(obj)
-        obj._logical_coordinates = self.logical_coordinates
+        obj._logical_coordinates = self._logical_coordinates
         obj._expressions         = self._expressions
         obj._constants           = self._constants
         obj._jac                 = self._jac
